@@ -16,6 +16,7 @@ from pandapipes.properties import fluids as FL
 from pandapipes.std_types.std_type_class import PumpStdType
 
 ID = "C15"
+CASE_WEIGHT = 10   # relative cost of one case (pool sizing)
 LEVEL = "exploration"
 RULE = ("networks: one per component kind alone (15), all together, per variation {empty tables only, NaN / None / empty-string "
         "cells, non-contiguous unsorted and large indices, custom columns of each dtype, custom fluid built from each property "
